@@ -270,6 +270,7 @@ def run(ctx: Ctx) -> int:
                     "answers": [(a["prio"], a["weight"], a["port"], _txt(a["target"])) for a in row["answers"]],
                     "asked": _txt(row["s"]["qname"]), "search": row["s"]["search"],
                     "result": (row["s"]["res"]["prio"], row["s"]["res"]["weight"], row["s"]["res"]["port"], _txt(row["s"]["res"]["target"]))})
+    _api_level(ctx)
     ctx.assume("dns.resolver.resolve / dns.asyncresolver.resolve (and the Resolver.resolve methods) replaced in the driver process; "
                "the answer is an iterable of real dns.rdtypes.IN.SRV.SRV rdata; dnspython's own wire parsing is not exercised")
     return ctx.finish(
@@ -277,6 +278,43 @@ def run(ctx: Ctx) -> int:
              "not given, each through lookup_dc and async_lookup_dc; distinct = distinct (sequence, domain given?)",
         exhaustive=True,
     )
+
+
+API_CLAUSES = {"EXT_srv_query_name_for_blob_domain": "api_queries_srv_name_of_another_domain",
+               "EXT_connects_to_given_server_or_best_srv_target": "api_does_not_connect_to_the_chosen_record"}
+
+
+def _api_level(ctx: Ctx) -> None:
+    """The use of the lookup by the public API (anchored in _client.py): without a server, unprotect asks for the DC of the
+    domain the blob names (not its forest, not a default) and protect for the domain_name argument, and both connections go to
+    the chosen record's target.  Conversation recorded by the reference DC, folded through Online!Step by TraceOnline."""
+    from .. import refdc
+    from . import c17
+
+    refdc.ensure_ntlm_users()
+    names = [("child.corp.test", "corp.test"), ("corp.test", "corp.test"), ("a.b", "b"), ("emea.example.com", "example.com"), ("x.test", "yy.test")]
+    cfgs = c17.configs(ctx, ctx.pick(20, 160))
+    rows = []
+    for i, cfg in enumerate(cfgs):
+        dom, forest = names[i % len(names)]
+        cfg.update(dns=True, dc_error=False, domain=dom, forest=forest)
+        row = c17.one_call(ctx, cfg)
+        row["id"] = i
+        rows.append(row)
+        ctx.distinct(("api", cfg["op"], dom, forest))
+    ctx.count(2 * len(rows))
+    bad, _ = validate(ctx, "TraceOnline", "TraceOnline.cfg", rows, chunk=60, what="dns-api")
+    for i, clauses in bad.items():
+        mine = [API_CLAUSES[c] for c in clauses if c in API_CLAUSES]
+        for c in clauses:
+            if c not in API_CLAUSES:
+                ctx.note_drift("extended_behaviour:" + c)        # the rest of the online conversation is C17's subject
+        if mine:
+            r_, c = rows[i], cfgs[i]
+            asked = [e.get("qname") for e in r_["sync"] + r_["async"] if e.get("ev") == "dns"]
+            ctx.violation(f"dns:{mine[0]}:{c['op']}", ",".join(mine), {"op": c["op"], "domain": c["domain"], "forest": c["forest"], "asked": asked, "call": r_["call"]},
+                          f"{c['op']} without a server, blob/argument domain {c['domain']!r} (forest {c['forest']!r}): SRV names asked {asked}, expected {r_['call']['qname']!r}, "
+                          f"connections expected to {r_['call']['host']!r}")
 
 
 def selftest(ctx: Ctx) -> int:
